@@ -53,6 +53,19 @@ def load_known():
     return out
 
 
+def _approx_size(o):
+    """rough size of the JSON text of o (octet lists dominate: ~4 characters per element)."""
+    if isinstance(o, dict):
+        return sum(_approx_size(v) + len(k) + 4 for k, v in o.items())
+    if isinstance(o, (list, tuple)):
+        if o and isinstance(o[0], int):
+            return 4 * len(o)
+        return sum(_approx_size(v) for v in o) + 2
+    if isinstance(o, str):
+        return len(o) + 2
+    return 8
+
+
 class Ctx(object):
     """One run of one property check."""
 
@@ -128,8 +141,17 @@ class Ctx(object):
         rejects = []
         chunk = chunk or len(events) or 1
         base = 0
+        max_bytes = kw.pop('max_bytes', 24 << 20)        # bound the JSON one TLC run has to deserialise
         while base < len(events) or (base == 0 and not events):
             part = events[base:base + chunk]
+            if len(part) > 1:
+                tot, keep = 0, 0
+                for e_ in part:
+                    tot += _approx_size(e_)
+                    if keep and tot > max_bytes:
+                        break
+                    keep += 1
+                part = part[:keep]
             r = self.trace(module, {'events': part}, cfg=cfg, name=name, **kw)
             done = [p for p in r.prints if isinstance(p, list) and p and p[0] == 'DONE']
             if not done or done[-1][1] != len(part):
@@ -138,7 +160,7 @@ class Ctx(object):
             for p in r.prints:
                 if isinstance(p, list) and p and p[0] == 'REJECT':
                     rejects.append((base + p[1] - 1, p[2]) + tuple(p[3:]))
-            base += chunk
+            base += len(part) if part else chunk
             if not events:
                 break
         return rejects
